@@ -41,8 +41,10 @@ def run_l2(run):
         return {"t": "str", "s": probe.to_syms(text)}
     entries = [["k_" + f, S("c-" + f)] for f in FORMS] + [["o_ordinal_" + f, S("o-" + f)] for f in FORMS] \
         + [["m_one", S("c-one")], ["m_other", S("c-other")]]
-    node = {"t": "map", "e": entries}
-    files = [[l, node] for l in L2_LOCS]
+    node = {"t": "map", "e": entries + [["d", {"t": "raw", "v": "null"}]]}
+    # key d: all six forms in the default locale only, null everywhere else - the forms are the default's, the rules the rendered locale's
+    node_en = {"t": "map", "e": entries + [["d_" + f, S("c-" + f)] for f in FORMS]}
+    files = [[l, node_en if l == "en" else node] for l in L2_LOCS]
     rust = r"""
     let counts: Vec<u64> = (0..=200u64).chain([1000u64, 1000000, 1000000001]).collect();
     let fwd: Vec<Locale> = Locale::get_all().to_vec();
@@ -54,8 +56,10 @@ def run_l2(run):
                 line("k", td_string!(l, k, count = n).to_string());
                 line("o", td_string!(l, o, count = n).to_string());
                 line("m", td_string!(l, m, count = n).to_string());
+                line("d", td_string!(l, d, count = n).to_string());
                 if pass == 1 && n <= 20 {
                     line("k", render(td!(l, k, count = move || n)));
+                    line("d", render(td!(l, d, count = move || n)));
                     line("tp", leptos_i18n::plurals::td_plural!(l, count = move || n, one => "one", _ => "other").to_string());
                     line("tpo", leptos_i18n::plurals::td_plural_ordinal!(l, count = move || n, one => "one", _ => "other").to_string());
                 }
